@@ -99,7 +99,7 @@ def producing(rng, c, others):
 
 
 def histories(rng, tier):
-    n = 150 if tier == 'quick' else 3000
+    n = 400 if tier == 'quick' else 3000
     out = []
     for _ in range(n):
         c = gen.rand_cfg(rng, max_npix=768, name='a', min_delta=0)
